@@ -6,6 +6,8 @@ import (
 	"fmt"
 	"os"
 	"runtime"
+	"strconv"
+	"strings"
 )
 
 var loadPatterns = []string{"./internal/...", "./pkg/...", "./cmd/..."}
@@ -35,13 +37,20 @@ func cmdRun(args []string) {
 	hdir := fs.String("harnessdir", "/verif/harness", "harness directory")
 	workers := fs.Int("j", runtime.NumCPU(), "workers")
 	verbose := fs.Bool("v", false, "verbose")
+	optStr := fs.String("opt", "", "k=v,k=v harness options")
 	fs.Parse(args)
 	P, err := LoadProgram(*repo, *hdir, loadPatterns)
 	if err != nil {
 		fmt.Fprintln(os.Stderr, "INCONCLUSIVE load:", err)
 		os.Exit(2)
 	}
-	spec := &HarnessSpec{Name: *name, Pkg: *pkg}
+	spec := &HarnessSpec{Name: *name, Pkg: *pkg, Opts: map[string]int{}}
+	for _, kv := range strings.Split(*optStr, ",") {
+		if k, v, ok := strings.Cut(kv, "="); ok {
+			n, _ := strconv.Atoi(v)
+			spec.Opts[k] = n
+		}
+	}
 	h := NewHarnessRun(P, spec, *tier)
 	err = h.Run(*workers)
 	r := h.Result(err)
